@@ -265,6 +265,22 @@ pub fn run() -> i32 {
                 Out::Ok(Err(er)) => a.viols.push(Viol { key: format!("env|{:?}|{}|{}|error", k, side, md_text(&m).join(",")), desc: format!("`{}` on /{}/: error {}", text, show_cw(&w), er), case: json!({"env": true, "rule": text, "word": cw_json(&w), "expected": cw_json(&e)}) }),
                 o => a.viols.push(Viol { key: format!("env|crash|{}", text), desc: o.crash_desc().unwrap(), case: json!({"env": true, "rule": text, "word": cw_json(&w), "expected": cw_json(&e)}) }),
             }
+            // the same insertion with the long segment at the edge of the word (first / last segment of a one-syllable word): the scan that moves
+            // copy by copy has nothing in front of the segment to tell where it starts; the site at the word edge belongs to the only syllable
+            if side >= 6 {
+                let a_seg = seg("a"); let n_seg = seg("n");
+                let mut segs: Vec<SegBits> = vec![]; if before { segs.push(n_seg); } for _ in 0..len { segs.push(a_seg); } if !before { segs.push(n_seg); }
+                let w: CW = vec![CSyl { segs, stress, tone }];
+                let mut e = w.clone();
+                if fires { if before { e[0].segs.push(seg("i")); } else { e[0].segs.insert(0, seg("i")); } }
+                a.evals += 1;
+                match run_one(&compiled, &w, &text) {
+                    Out::Ok(Ok(g)) if g == e => { if fires { a.nt += 1; } a.outs.insert(hash64(&g)); }
+                    Out::Ok(Ok(g)) => a.viols.push(Viol { key: format!("env-edge|{:?}|{}|{}|len{},stress{},tone{}", k, side, md_text(&m).join(","), len, stress, tone), desc: format!("`{}` on /{}/ (long segment at the word edge): the element {} the state (length {}, stress {}, tone {}), expected /{}/, got /{}/", text, show_cw(&w), if hit { "matches" } else { "does not match" }, len, stress, tone, show_cw(&e), show_cw(&g)), case: json!({"env": true, "rule": text, "word": cw_json(&w), "expected": cw_json(&e)}) }),
+                    Out::Ok(Err(er)) => a.viols.push(Viol { key: format!("env-edge|{:?}|{}|{}|error", k, side, md_text(&m).join(",")), desc: format!("`{}` on /{}/: error {}", text, show_cw(&w), er), case: json!({"env": true, "rule": text, "word": cw_json(&w), "expected": cw_json(&e)}) }),
+                    o => a.viols.push(Viol { key: format!("env-edge|crash|{}", text), desc: o.crash_desc().unwrap(), case: json!({"env": true, "rule": text, "word": cw_json(&w), "expected": cw_json(&e)}) }),
+                }
+            }
         } } }
     }, |a| { te.evals += a.evals; te.nt += a.nt; te.viols.extend(a.viols); te.outs.extend(a.outs); });
     r.boxes.push(json!({"box": "modifiers on an environment element (before / after the target, context / exception)", "rules": ejobs.len(), "cases": te.evals, "fired": te.nt}));
